@@ -93,7 +93,7 @@ def map_ops_basic(reg, u, full_args=True):
                     f"{reg} remove {p}", f"{reg} remove_entry {p}"]
     for mask in ([0, 1, 2, 5, 10, 15, 7, 8] if full_args else [5, 10]):
         ops.append(f"{reg} retain {mask} 1")
-    ops += [f"{reg} clear", f"{reg} len", f"{reg} is_empty", f"{reg} capacity"]
+    ops += [f"{reg} clear", f"{reg} len", f"{reg} is_empty", f"{reg} capacity", f"{reg} defaults"]
     for t in range(0, 5):
         ops.append(f"{reg} drain {t} drop")
     return ops
@@ -229,6 +229,9 @@ def random_map_seq(o, rng, n, length, u, with_iters=True, with_forget=True, unsa
         reg = rng.choice(regs)
         c = rng.choice(u)
         r = rng.random()
+        if rng.random() < 0.02:
+            o.op(f"{reg} defaults")
+            continue
         if r < 0.30:
             kind = rng.choice(["insert", "insert", "insert_key_value", "checked_insert"])
             o.op(f"{reg} {kind} {o.k(c)} {o.v()}")
@@ -292,6 +295,11 @@ def random_set_seq(o, rng, n, length, u):
         c = rng.choice(u)
         r = rng.random()
         p = rng.choice(["q", "k"])
+        if rng.random() < 0.03:
+            a = ",".join(str(rng.randint(0, 5)) for _ in range(rng.randint(0, 3)))
+            b = ",".join(str(rng.randint(0, 7)) for _ in range(rng.randint(0, 5)))
+            o.op(rng.choice([f"{reg} extend_ref [{a}] [{b}]", f"{reg} defaults"]))
+            continue
         if r < 0.30:
             o.op(f"{reg} {rng.choice(['insert', 'insert', 'replace'])} {o.k(c)}")
         elif r < 0.45:
@@ -684,7 +692,10 @@ def set_ops_basic(reg, u):
             t += [f"{reg} contains {p}", f"{reg} get {p}", f"{reg} remove {p}", f"{reg} take {p}"]
     for mask in (0, 5, 10, 15):
         t.append(f"{reg} retain {mask}")
-    t += [f"{reg} clear", f"{reg} len", f"{reg} is_empty", f"{reg} capacity"]
+    t += [f"{reg} clear", f"{reg} len", f"{reg} is_empty", f"{reg} capacity", f"{reg} defaults"]
+    for a, b in (("[]", "[3,5,3,9,5]"), ("[1,2]", "[2,7]"), ("[1]", "[1,1]"), ("[]", "[]"), ("[4,5,6]", "[6,5,4,3]"),
+                 ("[1,2,3,4]", "[9]"), ("[0]", "[1,2,3,4,5,6,7]")):
+        t.append(f"{reg} extend_ref {a} {b}")
     for take in range(0, 4):
         t.append(f"{reg} drain {take} drop")
     for k in range(0, 4):
@@ -733,7 +744,7 @@ def gen_C08(o, rng, tier):
                 o.case(s0=c0, s1=c1)
                 build_set(o, "s0", a)
                 build_set(o, "s1", b)
-                for kind in ("union", "intersection", "difference", "symmetric_difference"):
+                for kind in ("union", "intersection", "difference", "symmetric_difference", "difference_ref"):
                     for sc in (scripts if (c0, c1) == caps[0] else scripts[:2]):
                         o.op(f"s0 alg {kind} s1 {sc}", test=True)
                 for p in ("is_subset", "is_superset", "is_disjoint"):
@@ -1127,7 +1138,7 @@ def gen_C19(o, rng, tier):
                 for kind in ("iter", "keys", "values", "iter_mut", "values_mut"):
                     script = "dD" + "ndD" * (len(lay) + 1)
                     o.op(f"m0 iter {kind} 0 {script}", test=True)
-                for kind in ("union", "intersection", "difference", "symmetric_difference"):
+                for kind in ("union", "intersection", "difference", "symmetric_difference", "difference_ref"):
                     script = "dD" + "ndD" * (len(lay) + 2)
                     o.op(f"s0 alg {kind} s1 {script}", test=True)
                 o.op("m0 fmt debug")
